@@ -277,7 +277,7 @@ cif_value_tp *ApiRun::make_value(const Op &o, MValue &snap, uint64_t salt) {
     cif_value_tp *v = build_value(specv, &rc);
     if (!v) violate("value_build", rc_name(rc), strprintf("could not build value %s through the public API: %s", show(specv).c_str(), rc_name(rc)));
     try { snap = snapshot_value(v); } catch (Violation &vi) { cif_value_free(v); violate("value_build", vi.sig, vi.detail); }
-    ev("value %s", show(specv, 160).c_str());
+    { static const char *sl = getenv("CIFSIM_SHOWLEN"); ev("value %s", show(specv, sl ? (size_t) atoi(sl) : 160).c_str()); }
     std::string a = canon(specv, VE_ROUNDTRIP), b = canon(snap, VE_ROUNDTRIP);
     // VE_ROUNDTRIP folds number kinds; here kinds must match exactly, so compare kind separately
     if (specv.kind != snap.kind || a != b) { cif_value_free(v); violate("value_build", "mismatch", strprintf("value built through the API reads back differently: wanted %s got %s", show(specv).c_str(), show(snap).c_str())); }
